@@ -136,6 +136,11 @@ def check_case(case: dict) -> Result:
     n, lo, up = case["n"], case["lower"], case["upper"]
     size = 1 << n
     obj = build_icg(n, lo, up) if case["via"] == "icg" else StandIn(n, lo, up)
+    if n <= 8 and case.get("warm", True):
+        # ordinary use of the package: somebody computed a Shapley value for a game of this size earlier in the process
+        from incomplete_cooperative.shapley import compute_shapley_value
+        from .. import repo
+        list(compute_shapley_value(repo.full_game(n, [float(s % 5) for s in range(size)])))
     got = float(compute_exploitability(obj))
     tol = _tol(n, lo, up)
     exact = exploitability_exact(lo, up, n)
